@@ -40,7 +40,7 @@ TRUSTED = [
 ]
 NOT_DECIDED = ['well-formedness of result values (start <= end, non-negative times) as facts about numbers']
 ASSUMPTIONS = ['callers do not share sub-messages between two NoteSequences (protobuf forbids it)']
-FLOORS = {'OWN/write': 150, 'OWN/return': 19, 'DET/ext-call': 20, 'PAIR/end-total': 6}
+FLOORS = {'OWN/write': 150, 'OWN/return': 19, 'DET/ext-call': 20, 'PAIR/end-total': 6, 'PAIR/steps-total-order': 2}
 
 NONDET_PREFIX = ('random.', 'numpy.random.', 'time.', 'os.', 'uuid.', 'tempfile.')
 
@@ -54,6 +54,8 @@ def run(ctx):
     own.check_borrowed(ctx, SL + ':' + name, ptypes, {}, borrowed, rule='OWN-RO')
   pairing(ctx)
   adjust_dominance(ctx)
+  from rules import C01
+  C01.total_order(ctx, 'PAIR/steps-total-order')
 
 
 def determinism(ctx, name, res):
@@ -185,6 +187,9 @@ def adjust_dominance(ctx):
 
 
 MUTANTS = [
+    Mutant('seed C11_b: total_quantized_steps assigned after the notes (absolute)', F,
+           '  qns.total_quantized_steps = quantize_to_step(qns.total_time, steps_per_second)\n  _quantize_notes(qns, steps_per_second)\n\n  return qns\n\n\ndef transpose_note_sequence',
+           '  _quantize_notes(qns, steps_per_second)\n  qns.total_quantized_steps = quantize_to_step(qns.total_time, steps_per_second)\n\n  return qns\n\n\ndef transpose_note_sequence', rule='PAIR/steps-total-order'),
     Mutant('quantize: alias instead of deepcopy', F, 'qns = copy.deepcopy(note_sequence)\n\n  qns.quantization_info.steps_per_quarter',
            'qns = note_sequence\n\n  qns.quantization_info.steps_per_quarter', rule='OWN/'),
     Mutant('quantize_absolute: alias instead of deepcopy', F, 'qns = copy.deepcopy(note_sequence)\n  qns.quantization_info.steps_per_second',
